@@ -20,6 +20,12 @@ ASSUMPTIONS = [
     "Task.cancel() of the old handler takes effect before that task runs again (it cannot take another message after add_metric returned)",
     "receiver overflow (more than the receiver limit buffered) is excluded, as in the property",
     "add_metric calls do not overlap (the DataSourcingActor awaits them one at a time)",
+    "actor restart: the MicrogridApiSource (subscriptions, API receivers, handler tasks) belongs to the DataSourcingActor object and "
+    "survives every re-entry of _run() after an unhandled exception (model: Restart and AddFault change nothing; the request whose "
+    "handling raised is dropped); API-client failures during a handler (re)start only delay that start (HandlerFail, run_forever retry)",
+    "a send() on a channel its consumer closed (ChannelRegistry.close_and_remove) raises in its own send task only: all send tasks of a "
+    "fan-out run their first step before the TaskGroup aborts (FIFO), so st_out logs every entered send and the reader of a closed "
+    "channel holds a prefix of its sends",
 ]
 TRUSTED = ["async_solipsism virtual-time event loop", "frequenz-channels 1.12.0 Broadcast (tapped at Receiver.consume / Sender.send)",
            "tools/harness/datasourcing.py fake API client and trace recorder"]
@@ -35,7 +41,9 @@ META = {
                   "accepted messages), duplicates, unknown components and invalid metrics leave the state unchanged, no handler ever "
                   "crashes. The model is tied to the code by "
                   "replaying recorded traces of the real classes (all four data categories, direct and via the actor, subscriptions "
-                  "before / between / back-to-back with messages) and by an independent oracle on sent-vs-received samples.",
+                  "before / between / back-to-back with messages; API-client faults making the real actor restart after RESTART_DELAY or a "
+                  "handler start fail, with served requests repeated during/after the restart; consumers closing one of several channels "
+                  "of a component at every position in subscription order) and by an independent oracle on sent-vs-received samples.",
     "level_note": "Partial by nature: FIFO task execution, non-suspending Broadcast.send, cancellation semantics and the surviving API "
                   "receiver are runtime assumptions exercised by the trace runs, not proved; receiver overflow excluded. Events are "
                   "recorded by tapping public boundaries (add_metric / _handle_data_stream wrappers, ChannelRegistry subclass, "
